@@ -1,7 +1,7 @@
 (* C07 — global references stay bound to the same global across edits.  Statements only. *)
 From Coq Require Import List Arith NArith Bool.
 Import ListNotations.
-From Orca Require Import Util Reindex Reorg ReidxProofs CheckReidx SelfReidx GenRefers RefersThm.
+From Orca Require Import Util Reindex Reorg ReidxProofs ReidxBind ReidxInv CheckReidx SelfReidx GenRefers RefersThm.
 Local Open Scope N_scope.
 
 (* the index-space theorems are shared by the three re-indexed spaces (functions, globals, memories) *)
@@ -23,10 +23,12 @@ Theorem C07_global_operator_tables_exact :
 Proof. exact refers_to_global_complete. Qed.
 Print Assumptions C07_global_operator_tables_exact.
 
-(* D03: global exports are copied, not re-indexed *)
-Example C07_refuted_D03 :
+(* the former D03 witness (global exports used to be copied): the export of global 0 is re-indexed with the global
+   when add_imported_global moves it, and the property holds *)
+Example C07_former_D03_witness_holds :
   let c := self_r [] [99] [5] [] [AddImport SG 21] [mkSite KExport SG 0 (OExport 0); mkSite KCode SG 0 (OFunc 0)] in
-  agree c = true /\ dom_of (verdict07 c) = true /\ holds_of (verdict07 c) = false /\ known_D03 c = true.
+  agree c = true /\ dom_of (verdict07 c) = true /\ holds_of (verdict07 c) = true /\ known_of (verdict07 c) = []
+  /\ option_map e_sites (o_enc c) = Some [(0, 1); (1, 1)].
 Proof. vm_compute. repeat split; reflexivity. Qed.
 (* D24: iterator-level add_global followed by add_imported_global: the second call returns an id that
    already designates the first global *)
@@ -41,3 +43,41 @@ Example C07_nonvacuous :
               mkSite KInit SG 0 (OGlobal 2); mkSite KDataOff SG 0 ONone] in
   agree c = true /\ dom_of (verdict07 c) = true /\ holds_of (verdict07 c) = true.
 Proof. vm_compute. repeat split; reflexivity. Qed.
+
+(* ---- the binding theorem over every reachable state (Proofs/ReidxInv.v) ----
+   [wf] (stored ids are positions, the import-section entries are linked one-to-one to the import items, the
+   counters bound the original region) holds of every base module and is preserved by every edit of the API
+   model; hence, after ANY history, outside the classes D02 / D06 / D26 (which the premises name as executable
+   predicates on the reached state), every live item's id is mapped to the index at which Wasm's index rule
+   (imports of the kind in import-section order, then the emitted locals) finds exactly that item; deleted items
+   have no map entry (a remaining reference makes encode panic) and nothing deleted is left in the space. *)
+Theorem C07_wf_is_an_invariant_of_every_edit :
+  forall m o m' r, wf m -> Reindex.step m o = Ok (m', r) -> wf m'.
+Proof. exact step_wf. Qed.
+Print Assumptions C07_wf_is_an_invariant_of_every_edit.
+Theorem C07_wf_holds_of_every_base_module : forall c : rcase, wf (mk_base c).
+Proof. exact wf_mk_base. Qed.
+Print Assumptions C07_wf_holds_of_every_base_module.
+Theorem C07_binding_after_any_history :
+  forall base h m rets, wf base -> run_pref base h [] = (m, rets, false) ->
+  forall x, okD02 x m = true -> okD06 x m = true -> okD26 x m = true ->
+  forall l mp, index_space (get_sp m x) = Ok (l, mp) ->
+  forall it, In it (s_items (get_sp m x)) -> it_del it = false ->
+  exists q, lookup mp (it_id it) = Some q /\ nthN (space_of_model m l x) q = Some (it_fp it).
+Proof. exact reachable_binding. Qed.
+Print Assumptions C07_binding_after_any_history.
+(* the same on what the encoder model emits, in the checker's vocabulary ([designates] = Wasm's index rule on
+   the emitted import section and local sections), for every case outside the three known classes *)
+Theorem C07_binding_on_the_emitted_module :
+  forall (c : rcase) e, known_D02 c = false -> known_D06 c = false -> known_D26 c = false ->
+  encode (final_model c) (dead_exports (h_ops c)) (sites c) = Ok e ->
+  forall x l mp, index_space (get_sp (final_model c) x) = Ok (l, mp) ->
+  (forall it, In it (s_items (get_sp (final_model c) x)) -> it_del it = false ->
+     exists q, lookup mp (it_id it) = Some q /\ designates e x q = Some (it_fp it)) /\
+  (forall it, In it (s_items (get_sp (final_model c) x)) -> it_del it = true -> lookup mp (it_id it) = None) /\
+  (forall it, In it l -> it_del it = false).
+Proof. exact case_binding_outside_known_classes. Qed.
+Print Assumptions C07_binding_on_the_emitted_module.
+(* the premises are satisfiable after a six-edit history touching all three spaces, and okD02 cannot be dropped *)
+Example C07_binding_nonvacuous : True.
+Proof. pose proof reachable_binding_nonvacuous. pose proof reachable_binding_needs_okD02. exact I. Qed.
